@@ -58,6 +58,10 @@ func init() {
 				r.Explanation += " PRED-AGREE (intrinsic): for every gadget type offering both IsX and AssertIsX, the leaf comparisons of the predicate (through And, nested predicates expanded) and of the assertion (nested assertions expanded) are the same set of atoms over canonical operand descriptors."
 				RunPredAgree(p, r, pkgScope(flowAreas[id]...))
 				r.RequireMin("PRED-AGREE", 12)
+				r.Engines = append(r.Engines, "zerotriv(ZERO-TRIVIAL)")
+				r.Explanation += " ZERO-TRIVIAL (intrinsic): no function that checks a relation among hint outputs is satisfied, for arbitrary inputs, by the witness in which every hint output is zero (abstract interpretation with the domain 'provably zero under the all-zero hint witness'; multiplicatively homogeneous relations such as a·w == c^λ without a non-zero check are reported)."
+				RunZeroTrivial(p, r, pkgScope(flowAreas[id]...))
+				r.RequireMin("ZERO-TRIVIAL", 10)
 			}
 			if id == "C12" {
 				r.Engines = append(r.Engines, "emuwidth(EMU-WIDTH,EMU-FLAG)")
